@@ -1,7 +1,6 @@
 from __future__ import annotations
 
 import logging
-import os
 from collections import defaultdict
 from typing import TYPE_CHECKING
 
@@ -110,7 +109,7 @@ def _get_nearest_init_dirs(root: Path) -> list[Path]:
 def _get_mypy_build(files: list[str]) -> mypy_build.BuildResult:
     """Build a mypy checker and return the build result."""
     # The configuration files of mypy that may lie in or above the current working directory must not change the result
-    mypyfiles, opt = mypy_main.process_options(["--config-file", os.devnull, *files])
+    mypyfiles, opt = mypy_main.process_options(["--config-file=", *files])
 
     # Disable the memory optimization of freeing ASTs when possible
     opt.preserve_asts = True
